@@ -82,6 +82,13 @@ func (cw *CodeWriter) WriteSemi() {
 	cw.semiOmitted = true
 }
 
+// forgetOmittedSemi is called where nothing that follows can continue the statement (a closing
+// brace or the end of the input): the omitted semicolon need not be restored.
+func (cw *CodeWriter) forgetOmittedSemi() {
+	defer cw.vtrace("forgetOmittedSemi", "")()
+	cw.semiOmitted = false
+}
+
 // restoreSemi writes the semicolon that WriteSemi left out when the text that follows would
 // otherwise continue the previous statement (or, for `else`, would not parse at all).
 func (cw *CodeWriter) restoreSemi(next string) {
